@@ -2,11 +2,16 @@
    compress_inner (the control plane shared by every level): empty output refused without side
    effects; after stream end Finish keeps returning stream end and anything else is a buffer
    error; a non-Finish call after Finish is a parameter error that consumes and emits nothing.
-   Progress / termination under Finish are decided per explored run. *)
+   And at level 0, for every input and every sequence of deflate() calls (any chunking, any output
+   lengths, flush None / Sync / Full / Finish, unconsumed input offered again, buffer-error returns
+   included): when stream end is reported, everything received so far is a stream the RFC 1951 / 1950
+   specification decodes to exactly the input consumed.  Progress / termination under Finish are
+   decided per explored run. *)
 From Coq Require Import NArith ZArith List.
 From MZ.lib Require Import Mach.
+From MZ.spec Require Import DeflateSpec.
 From MZ.model Require Import DeflateCore.
-From MZ.proofs Require Import Protocol.
+From MZ.proofs Require Import Protocol StoredSpec StoredDeflate.
 Import ListNotations.
 Local Open Scope N_scope.
 
@@ -26,3 +31,23 @@ Theorem C14_nonfinish_after_finish_is_error :
   deflate c input out_len flush
   = Ret (DRet D_MZ_ERR_PARAM 0 [] (set_prev (set_flush c flush) TBadParam)).
 Proof. exact deflate_nonfinish_after_finish. Qed.
+
+Theorem C14_level0_stream_end_means_lossless_partial :
+  forall (data : list N) (flags wb : N) (sched : list (N * N * N)) (out : list N) (n : N),
+  hasf flags FLAG_RAW = true -> wb <= 15 -> bytes_ok data ->
+  Forall (fun it => legal_mz_flush (snd it)) sched ->
+  ddrive (comp_new flags wb) data sched [] 0 = Ret (Some (out, n)) ->
+  n <= N.of_nat (length data) /\
+  exists blocks,
+    (if hasf flags FLAG_ZLIB then zlib_spec true out else inflate_spec out)
+    = SDone (firstn (N.to_nat n) data) (N.of_nat (length out)) blocks.
+Proof. exact level0_every_deflate_schedule. Qed.
+
+(* non-vacuity: calls with one-byte and empty output buffers, a sync flush, Finish repeated until stream end *)
+Example C14_a_deflate_schedule_that_ends :
+  match ddrive (comp_new 528384 15) (repeat 67 50)
+               [(20, 1, 0); (30, 0, 2); (30, 7, 2); (30, 1000, 3); (0, 3, 4); (0, 1000, 4)] [] 0 with
+  | Ret (Some (out, n)) => n = 50
+  | _ => False
+  end.
+Proof. vm_compute. reflexivity. Qed.
